@@ -1998,10 +1998,22 @@ _GROW = {"add", "update", "append", "extend", "insert", "appendleft", "extendlef
 _SHRINK = {"remove", "discard", "clear", "pop", "popleft", "difference_update", "intersection_update", "symmetric_difference_update", "sort", "reverse"}
 
 
-def _superset_copies(fn: ast.AST, params: set[str]) -> dict[str, tuple[str, int]]:
-    """V -> (X, position of V's binding) for locals `V = set(X)` / `X.copy()` / `list(X)` (a *copy* of the node set X, bound once by a
-    top-level statement) that afterwards only grow (`V.add(..)`, `V.update(..)`, `V |= ..`) while X is not changed any more:
-    V >= X holds wherever V is read."""
+def _set_algebra(e: ast.AST) -> bool:
+    """`A - B`, `A | B`, `A & B`, `A.difference(B)`, .. over plain names (copies stripped)."""
+    e = strip(e)
+    if isinstance(e, ast.Name):
+        return True
+    if isinstance(e, ast.BinOp) and isinstance(e.op, (ast.BitOr, ast.Sub, ast.BitAnd)):
+        return _set_algebra(e.left) and _set_algebra(e.right)
+    if isinstance(e, ast.Call) and isinstance(e.func, ast.Attribute) and e.func.attr in ("union", "difference", "intersection") and e.args and not e.keywords:
+        return _set_algebra(e.func.value) and all(_set_algebra(a) for a in e.args)
+    return False
+
+
+def _superset_copies(fn: ast.AST, params: set[str]) -> dict[str, tuple[ast.AST, int]]:
+    """V -> (X, position of V's binding) for locals `V = set(X)` / `X.copy()` / `list(X)` (a *copy* of the node set X) or
+    `V = A - B` (set algebra over node sets), bound once by a top-level statement, that afterwards only grow (`V.add(..)`,
+    `V.update(..)`, `V |= ..`) while the operands are not changed any more: V >= X holds wherever V is read."""
     mut = _mutation_positions(fn)
     pos = mut["@pos"]
     out: dict[str, tuple[str, int]] = {}
@@ -2019,13 +2031,17 @@ def _superset_copies(fn: ast.AST, params: set[str]) -> dict[str, tuple[str, int]
         if v_name in params or stores.get(v_name) != 1:
             continue
         x = strip(val)
-        if not (isinstance(x, ast.Name) and x is not val and x.id != v_name):
+        if isinstance(x, ast.Name):
+            if x is val or x.id == v_name:
+                continue  # an alias, not a copy
+        elif not (isinstance(x, (ast.BinOp, ast.Call)) and _set_algebra(x)):
             continue
         st = stmt_of(val)
         if st is None or parent(st) is not fn:
             continue
         here = pos.get(id(val), -1)
-        if any(p_ > here for p_ in mut.get(x.id, [])):
+        operands = {n.id for n in ast.walk(x) if isinstance(n, ast.Name)}
+        if v_name in operands or any(p_ > here for o_ in operands for p_ in mut.get(o_, [])):
             continue
         ok = True
         for n in ast.walk(fn):
@@ -2034,7 +2050,7 @@ def _superset_copies(fn: ast.AST, params: set[str]) -> dict[str, tuple[str, int]
             elif isinstance(n, ast.AugAssign) and isinstance(n.target, ast.Name) and n.target.id == v_name and not isinstance(n.op, (ast.BitOr, ast.Add)):
                 ok = False
         if ok:
-            out[v_name] = (x.id, here)
+            out[v_name] = (x, here)
     return out
 
 
@@ -2056,7 +2072,7 @@ def _expand_superset_tests(fn: ast.AST, params: set[str]) -> None:
                 base, here = sup[x.comparators[0].id]
                 if pos.get(id(x), -1) <= here:
                     continue
-                other = ast.copy_location(ast.Compare(left=_clone(x.left), ops=[type(x.ops[0])()], comparators=[ast.copy_location(ast.Name(id=base, ctx=ast.Load()), x)]), x)
+                other = ast.copy_location(ast.Compare(left=_clone(x.left), ops=[type(x.ops[0])()], comparators=[ast.copy_location(_clone(base), x)]), x)
                 new = ast.copy_location(ast.BoolOp(op=ast.Or() if isinstance(x.ops[0], ast.In) else ast.And(), values=[x, other]), x)
                 for n_ in (other, new):
                     if hasattr(x, "_src"):
